@@ -1,0 +1,114 @@
+//go:build verif
+
+// Contracts for the verification machinery in /verif (govc). Comment-only file.
+
+package pool
+
+//@ guarded_by VipnodePool.remoteHosts mu
+//@ guarded_by VipnodePool.remoteNodeLookup mu
+
+// registryInv: every registered host id points at a connection the reverse lookup knows
+//@ pure registryInv(p *VipnodePool) bool = p.remoteHosts != nil && p.remoteNodeLookup != nil
+//@      && (forall id store.NodeID :: has(p.remoteHosts, id) ==> has(p.remoteNodeLookup, p.remoteHosts[id]))
+
+// verifiedX(a, r): the variadic argument list a that was signed consists of exactly the request r
+//@ pure verifiedConnect(a []interface{}, r ConnectRequest) bool = len(a) == 1 && typeis(a[0], ConnectRequest) && a[0].(ConnectRequest) == r
+//@ pure verifiedHost(a []interface{}, r HostRequest) bool = len(a) == 1 && typeis(a[0], HostRequest) && a[0].(HostRequest) == r
+//@ pure verifiedClient(a []interface{}, r ClientRequest) bool = len(a) == 1 && typeis(a[0], ClientRequest) && a[0].(ClientRequest) == r
+//@ pure verifiedPeer(a []interface{}, r PeerRequest) bool = len(a) == 1 && typeis(a[0], PeerRequest) && a[0].(PeerRequest) == r
+//@ pure verifiedUpdate(a []interface{}, r UpdateRequest) bool = len(a) == 1 && (typeis(a[0], UpdateRequest) && a[0].(UpdateRequest) == r
+//@      || typeis(a[0], oldUpdateRequest) && a[0].(oldUpdateRequest).Peers == r.Peers && a[0].(oldUpdateRequest).BlockNumber == r.BlockNumber)
+
+// authorised(M, id, n): the current request was verified for method M, identity id and nonce n,
+// signature first, nonce second.
+//@ pure authorised(m string, id string, n int64) bool = authOK && authMethod == m && authID == id && authNonce == n && nonceOK && nonceID == id && nonceVal == n
+
+//@ func (*VipnodePool).verify
+//@ property C04 C05 C06
+//@ ensures [accepted] err == nil ==> authorised(method, nodeID, nonce) && authArgs == args
+//@                                   && old(p.Store.nonce[nodeID]) < nonce && p.Store.nonce == upd(old(p.Store.nonce), nodeID, nonce)
+//@ ensures [refused]  err != nil ==> typeis(err, VerifyFailedError) && p.Store.nonce == old(p.Store.nonce) && effects == old(effects)
+//@                                   && nonceOK == old(nonceOK) && nonceID == old(nonceID) && nonceVal == old(nonceVal)
+//@ ensures [signature-first] {C06} !authOK ==> p.Store.nonce == old(p.Store.nonce) && effects == old(effects)
+//@ ensures [one-effect] err == nil ==> effects == old(effects) + 1
+//@ modifies authOK, authMethod, authID, authNonce, authArgs, nonceOK, nonceID, nonceVal, p.Store.nonce, effects
+
+//@ func (*VipnodePool).connect
+//@ property C04 C06 C09
+//@ requires authOK && authID == nodeID && nonceOK && nonceID == nodeID
+//@ requires !held(p.mu)
+//@ ensures [errkind] !typeis(err, VerifyFailedError)
+//@ ensures [unlocked] !held(p.mu)
+//@ ensures [effects] effects >= old(effects)
+//@ modifies effects, p.remoteHosts, p.remoteNodeLookup, p.Store.reg
+
+//@ func (*VipnodePool).requestHosts
+//@ property C04 C06 C08
+//@ trusted body not yet brought under contract (goroutines and select); callers rely on the frame only
+//@ requires authOK && authID == nodeID && nonceOK && nonceID == nodeID
+//@ ensures [errkind] !typeis(err, VerifyFailedError)
+//@ ensures [effects] effects >= old(effects)
+//@ modifies effects
+
+//@ func (*VipnodePool).Connect
+//@ property C04 C06
+//@ requires !authOK && !nonceOK && !held(p.mu)
+//@ ensures [authorised] effects != old(effects) ==> authorised("vipnode_connect", nodeID, nonce) && verifiedConnect(authArgs, req)
+//@ ensures [refused-error]    !(authOK && nonceOK) ==> typeis(err, VerifyFailedError)
+//@ ensures [refused-no-trace] !(authOK && nonceOK) ==> effects == old(effects) && p.Store.nonce == old(p.Store.nonce)
+//@                              && (forall id store.NodeID :: has(p.remoteHosts, id) == old(has(p.remoteHosts, id)) && p.remoteHosts[id] == old(p.remoteHosts[id]))
+
+//@ func (*VipnodePool).Host
+//@ property C04 C06
+//@ requires !authOK && !nonceOK && !held(p.mu)
+//@ ensures [authorised] effects != old(effects) ==> authorised("vipnode_host", nodeID, nonce) && verifiedHost(authArgs, req)
+//@ ensures [refused-error]    !(authOK && nonceOK) ==> typeis(err, VerifyFailedError)
+//@ ensures [refused-no-trace] !(authOK && nonceOK) ==> effects == old(effects) && p.Store.nonce == old(p.Store.nonce)
+//@                              && (forall id store.NodeID :: has(p.remoteHosts, id) == old(has(p.remoteHosts, id)) && p.remoteHosts[id] == old(p.remoteHosts[id]))
+
+//@ func (*VipnodePool).Client
+//@ property C04 C06
+//@ requires !authOK && !nonceOK && !held(p.mu)
+//@ ensures [authorised] effects != old(effects) ==> authorised("vipnode_client", nodeID, nonce) && verifiedClient(authArgs, req)
+//@ ensures [refused-error]    !(authOK && nonceOK) ==> typeis(err, VerifyFailedError)
+//@ ensures [refused-no-trace] !(authOK && nonceOK) ==> effects == old(effects) && p.Store.nonce == old(p.Store.nonce)
+//@                              && (forall id store.NodeID :: has(p.remoteHosts, id) == old(has(p.remoteHosts, id)) && p.remoteHosts[id] == old(p.remoteHosts[id]))
+
+//@ func (*VipnodePool).Peer
+//@ property C04 C06
+//@ requires !authOK && !nonceOK && !held(p.mu)
+//@ ensures [authorised] effects != old(effects) ==> authorised("vipnode_peer", nodeID, nonce) && verifiedPeer(authArgs, req)
+//@ ensures [refused-error]    !(authOK && nonceOK) ==> typeis(err, VerifyFailedError)
+//@ ensures [refused-no-trace] !(authOK && nonceOK) ==> effects == old(effects) && p.Store.nonce == old(p.Store.nonce)
+
+//@ func (*VipnodePool).Update
+//@ property C04 C06
+//@ requires !authOK && !nonceOK && !held(p.mu)
+//@ ensures [authorised] effects != old(effects) ==> authorised("vipnode_update", nodeID, nonce) && verifiedUpdate(authArgs, req)
+//@ ensures [refused-error]    !(authOK && nonceOK) ==> typeis(err, VerifyFailedError)
+//@ ensures [refused-no-trace] !(authOK && nonceOK) ==> effects == old(effects) && p.Store.nonce == old(p.Store.nonce)
+
+//@ func (*VipnodePool).CloseRemote
+//@ property C09 C10
+//@ requires !held(p.mu) && registryInv(p)
+//@ ensures [inv]          registryInv(p)
+//@ ensures [exact]        forall id store.NodeID :: has(p.remoteHosts, id) <==> (old(has(p.remoteHosts, id)) && old(p.remoteHosts[id]) != remote)
+//@ ensures [hosts-frame]  forall id store.NodeID :: has(p.remoteHosts, id) ==> p.remoteHosts[id] == old(p.remoteHosts[id])
+//@ ensures [gone]         !has(p.remoteNodeLookup, remote)
+//@ ensures [lookup-frame] forall s jsonrpc2.Service :: s != remote ==> has(p.remoteNodeLookup, s) == old(has(p.remoteNodeLookup, s)) && p.remoteNodeLookup[s] == old(p.remoteNodeLookup[s])
+//@ ensures [unlocked]     !held(p.mu)
+//@ loop 0 invariant [visited]   forall id store.NodeID :: visited[id] ==> (has(p.remoteHosts, id) <==> (old(has(p.remoteHosts, id)) && old(p.remoteHosts[id]) != remote))
+//@ loop 0 invariant [unvisited] forall id store.NodeID :: !visited[id] ==> has(p.remoteHosts, id) == old(has(p.remoteHosts, id))
+//@ loop 0 invariant [values]    forall id store.NodeID :: has(p.remoteHosts, id) ==> p.remoteHosts[id] == old(p.remoteHosts[id])
+//@ loop 0 invariant [lock]      held(p.mu) && p.remoteHosts != nil
+
+//@ func (*VipnodePool).NumRemotes
+//@ property C09 C10
+//@ requires !held(p.mu)
+//@ ensures [count]    result == len(p.remoteHosts)
+//@ ensures [unlocked] !held(p.mu)
+
+//@ func normalizeNodeURI
+//@ property C19
+//@ ensures [errkind] !typeis(err, VerifyFailedError) && !typeis(err, balance.LowBalanceError)
+//@ modifies nothing
